@@ -24,6 +24,7 @@ RULE = (
     "NaN/Infinity. Oracle (integer arithmetic): the bytes are the specification's representation, the value read back is "
     "the input truncated to the type's precision, and an unrepresentable decimal raises. distinct_nontrivial = distinct "
     "(logical type, value) pairs."
+    ' Unit containers: every logical type as map value, array item, record field, two-level nesting and by-name fixed, read with and without an identical reader schema; unions listing a timestamp branch before a date branch.'
 )
 ASSUMPTIONS = [
     "reference conversions in mc/ref/logical.py use integer arithmetic only",
